@@ -197,12 +197,54 @@ def run(tier, seed):
         for c in observe(b, obj, n, rng, rng.sample(range(2, 7), 2)):
             cases.append(c)
             descr.append({"n": n, "keys": kk, "labels": b.labels, "mx": c["mx"]})
+    # (v) histories of ONE object: it is measured, edited in place (as many hyperedges removed as added, nothing measured in
+    #     between) and measured again with the same bounds; only the second measurement is judged - it must be that of the content
+    nhist = 0
+    for i in range(60 if tier == "quick" else 900):
+        n = rng.choice([3, 4, 5])
+        pool = all_keys(n) if n <= 4 else None
+        kk = []
+        for _ in range(rng.randint(2, 7)):
+            if pool:
+                kk.append(rng.choice(pool))
+            else:
+                z = rng.randint(2, n)
+                nodes = rng.sample(range(1, n + 1), z)
+                a = rng.randint(1, z - 1)
+                kk.append((tuple(sorted(nodes[:a])), tuple(sorted(nodes[a:]))))
+            if rng.random() < 0.4:
+                S, T = kk[-1]
+                kk.append((T, S))
+        kk = list(dict.fromkeys(kk))
+        b = Binding("dir", LABEL_FAMILIES[fams[i % 4]](n), rng)
+        obj = build(b, kk, rng)
+        bounds = rng.sample(range(2, 7), rng.choice([1, 2]))
+        observe(b, obj, n, rng, bounds[::-1])          # the last bound of the first measurement is the first of the second
+        out = rng.sample(kk, rng.randint(1, min(2, len(kk))))
+        new = []
+        for S, T in out:
+            for c_ in ([(T, S)] if rng.random() < 0.5 else []) + [rng.choice(pool) if pool else (T, S) for _ in range(8)]:
+                if c_ not in kk and c_ not in new:
+                    new.append(c_)
+                    break
+        with quiet():
+            for S, T in out:
+                obj.remove_edge((b._tuple(S), b._tuple(T)))
+            for S, T in new:
+                obj.add_edge((b._tuple(S), b._tuple(T)))
+        k2 = [k for k in kk if k not in out] + new
+        nhist += 1
+        for c in observe(b, obj, n, rng, bounds):
+            cases.append(c)
+            descr.append({"n": n, "keys": k2, "labels": b.labels, "mx": c["mx"],
+                          "history": "the object held %s, was measured with the same bounds, and was edited in place" % (kk,)})
     v = K.run_cases("Trace_C12", cases, {"Kind": "dir"}, procs=12)
     for idx, failed in v["rejects"]:
         d = descr[idx]
         res.reject({"clauses": failed, "bound": d["mx"] if any("recipro" in f or "signature" in f for f in failed) else None},
-                   "directed measure(s) %s disagree with Directed.tla on %d-node %shypergraph %s (bound %d, labels %s)"
-                   % (",".join(failed), d["n"], "weighted " if d.get("weighted") else "", d["keys"], d["mx"], d["labels"]),
+                   "directed measure(s) %s disagree with Directed.tla on %d-node %shypergraph %s (bound %d, labels %s)%s"
+                   % (",".join(failed), d["n"], "weighted " if d.get("weighted") else "", d["keys"], d["mx"], d["labels"],
+                      " [%s]" % d["history"] if d.get("history") else ""),
                    {"case": d, "logged": {k: v_ for k, v_ in cases[idx].items() if k != "st"}, "state": cases[idx]["st"]})
     inexact = sum(1 for c in cases if not c["float_exact"])
     for i, c in enumerate(cases):
@@ -212,7 +254,7 @@ def run(tier, seed):
             break
     res.cov(traces_validated_against_impl=len(cases), validator_states=v["states"],
             distinct_hypergraphs=len({(d["n"], tuple(d["keys"])) for d in descr}),
-            weighted_cases=sum(1 for d in descr if d.get("weighted")),
+            weighted_cases=sum(1 for d in descr if d.get("weighted")), objects_measured_again_after_in_place_edit=nhist,
             weighted_cases_with_a_weight_other_than_1=sum(1 for c, d in zip(cases, descr) if d.get("weighted")
                                                           and any(e["w"] != 1 for e in c["st"]["edges"])),
             weighted_cases_with_signature_returned=sum(1 for c, d in zip(cases, descr) if d.get("weighted") and "sig" in c),
